@@ -7,7 +7,7 @@ from .. import core, fe, world
 from .. import prop as P
 from ..prop import V, hx, unhx
 
-OPS = ["create", "create_bad", "create_again", "create_stored", "gen_key", "encrypt", "upload_config", "upload_index", "search"]
+OPS = ["create", "create_bad", "create_again", "create_stored", "server_wipe", "gen_key", "encrypt", "upload_config", "upload_index", "search"]
 LEGAL = ["create", "gen_key", "encrypt", "upload_config", "upload_index", "search", "search"]
 BAD_CFG = ["unknown_scheme", "missing_param", "aes_key_20", "no_scheme"]
 
@@ -33,7 +33,7 @@ class C11(P.Property):
     real_stub = dict(deployment="real client Service + real server + websockets on the simulated loop/TCP; disk seam observing; no kills (C13)")
     assumptions = ["one service per run; operations before any create use an unknown sid"]
     probe_names = ["key_regen_refused", "encrypt_again_refused", "upload_before_create_refused", "search_before_upload_refused",
-                   "invalid_config_refused", "create_again_refused", "create_from_stored_config_refused", "reached_uploaded", "scheme_refused_input", "op_on_unknown_sid", "op_timed_out_under_stall"]
+                   "invalid_config_refused", "create_again_refused", "create_from_stored_config_refused", "reached_uploaded", "scheme_refused_input", "op_on_unknown_sid", "op_timed_out_under_stall", "service_deleted_on_server"]
 
     def setup(self):
         world.setup_frontend()
@@ -120,6 +120,7 @@ class C11(P.Property):
         sid = None
         F = dict(cc=False, cu=False, kc=False, de=False, du=False)
         srv = 0  # the server's state for this service
+        has_edb = False  # the client still holds its local copy of the index
         keybytes = None
 
         for si, st in enumerate(plan["steps"]):
@@ -161,6 +162,18 @@ class C11(P.Property):
                     continue  # (pickle memoisation of repeated strings) this would be a different, new service: not a redo
                 r = await host.create(stored)
                 exp = False
+            elif op == "server_wipe":
+                # the operator deletes the service on the server (frontend/README.md: state 0 = "not created or deleted"); no connection
+                # of the service is open at that moment.  From then on the server reports state 0 and the client's upload flags follow.
+                if sid is None or srv == 0:
+                    continue
+                await asyncio.sleep(3 * max(1.0, knobs.get("skew", 1.0)))
+                import shutil
+                shutil.rmtree(run.sse_path(sid), ignore_errors=True)
+                srv = 0
+                probes["service_deleted_on_server"] = 1
+                out["obs"].append(("-", "server_wipe", "done"))
+                continue
             elif op == "gen_key":
                 r = await host.gen_key(cur)
                 exp = F["cc"] and not F["kc"]
@@ -189,7 +202,7 @@ class C11(P.Property):
                     exp = F["cc"] and not F["cu"]
                     r = await host.upload_config(cur)
                 elif op == "upload_index":
-                    exp = F["cu"] and F["kc"] and F["de"] and not F["du"]
+                    exp = F["cu"] and F["kc"] and F["de"] and not F["du"] and has_edb  # (the local index is deleted once its upload is acknowledged)
                     r = await host.upload_index(cur)
                 else:
                     search_w = unhx(st.get("w", hx(b"absent")))
@@ -251,6 +264,7 @@ class C11(P.Property):
                         return
                 elif op == "encrypt":
                     F["de"] = True
+                    has_edb = True
                 elif op in ("upload_config", "upload_index"):
                     box = r[1][0]
                     ack = pickle.loads(box[0]) if box else None
@@ -259,6 +273,8 @@ class C11(P.Property):
                         return
                     F["cu" if op == "upload_config" else "du"] = True
                     srv = 1 if op == "upload_config" else 2
+                    if op == "upload_index":
+                        has_edb = False
                 else:
                     box, s = r[1]
                     if not box:
@@ -295,7 +311,7 @@ class C11(P.Property):
                     viol.append(V("C11.flags", "STATE_MISMATCH", f"step {si}: persisted flags {m!r:.60} differ from the reference model {F} after {op}", site=op))
                     return
             await asyncio.sleep(st.get("gap", 0))
-        if F["du"]:
+        if sid is not None and srv == 2:
             for w in list(db) + [b"absent"]:
                 r = await host.search(sid, w)
                 if r[0] != "ok" or not r[1][0]:
